@@ -1173,12 +1173,24 @@ impl<'a> Gen<'a> {
             return self.pdelay_op(rng);
         }
         let k = *rng.pick(&p2p);
+        let prev_id = self.w.ports[k - 1].last_pdreq;
         self.emit(format!("P{k} TMR delay"));
         if self.dead {
             return;
         }
         let Some(id) = self.w.ports[k - 1].last_pdreq else { return };
         self.w.ports[k - 1].pending_ctx.retain(|c| c != &format!("pdreq:{id}"));
+        // the transmit timestamp of the *previous* request, reported only now (it belongs to no exchange any more)
+        if let Some(p) = prev_id {
+            if p != id && rng.chance(1, 3) {
+                let t_late = self.w.t(rng);
+                self.out.count("gen.pdelay-late-previous-timestamp");
+                self.emit(format!("P{k} TXTS pdreq {p} {t_late}"));
+                if self.dead {
+                    return;
+                }
+            }
+        }
         let t1 = self.w.t(rng);
         let d = rng.log_u128(48) % (SEC / 1000);
         let t2 = t1 + d;
@@ -1721,9 +1733,17 @@ impl<'a> Gen<'a> {
         for c in order {
             match c {
                 9 => {
-                    let len = *rng.pick(&[0usize, 1, 2, 3, 10, 50, 100, 110, 117, 118, 119, 120, 126, 127, 128, 129]);
+                    let len = *rng.pick(&[0usize, 1, 2, 3, 10, 50, 100, 110, 117, 118, 119, 120, 126, 127, 128, 129, 129, 130, 160, 200]);
                     let mut v = Vec::new();
-                    let own_at = if rng.chance(1, 8) && len > 0 { Some(rng.below(len as u64) as usize) } else { None };
+                    // the own identity somewhere in the path (a loop) - for paths longer than the 128 entries the data
+                    // set can hold, often in the part beyond them
+                    let own_at = if len > 128 && rng.chance(1, 3) {
+                        Some(128 + rng.below((len - 128) as u64) as usize)
+                    } else if rng.chance(1, 8) && len > 0 {
+                        Some(rng.below(len as u64) as usize)
+                    } else {
+                        None
+                    };
                     for i in 0..len {
                         let c = if Some(i) == own_at {
                             self.w.own_clock
